@@ -4,8 +4,9 @@ from . import common as C
 SIM_WRAPS = ["coap_ticks", "coap_socket_send", "coap_socket_recv"]
 
 
-def build_sim_harness(name, **kw):
-    """Compile harness/<name>.c (which #includes sim_core.h) with the virtual clock / scripted network wraps."""
+def build_sim_harness(name, extra_wraps=(), **kw):
+    """Compile harness/<name>.c (which #includes sim_core.h) with the virtual clock / scripted network wraps
+    (+ extra_wraps: further symbols the harness replaces at link time)."""
     import os
     bdir = C.build_libcoap()
     # sim_core.h is a dependency of every sim harness: touch-compare by hand (build_harness only knows hcommon.h)
@@ -13,4 +14,4 @@ def build_sim_harness(name, **kw):
     core = os.path.join(C.VERIF, "harness", "sim_core.h")
     if os.path.exists(out) and os.path.getmtime(core) > os.path.getmtime(out):
         os.unlink(out)
-    return C.build_harness(name, bdir, wraps=SIM_WRAPS, **kw)
+    return C.build_harness(name, bdir, wraps=SIM_WRAPS + list(extra_wraps), **kw)
